@@ -902,11 +902,13 @@ fn main() {
             #[derive(Default)]
             struct Bean(#[allow(dead_code)] u64);
             let (rounds, threads) = (num(2) as usize, num(3) as usize);
+            // optional 4th argument "mut": the threads use the mutable lookup, get_mut_or_default
+            let mutable = args.get(4).map(String::as_str) == Some("mut");
             let mut diverging = 0;
             for r in 0..rounds {
                 let name: &'static str = Box::leak(format!("ocv-bean-{r}").into_boxed_str());
                 let barrier = Arc::new(Barrier::new(threads));
-                let hs: Vec<_> = (0..threads).map(|_| { let b = barrier.clone(); std::thread::spawn(move || { b.wait(); std::ptr::from_ref(BeanFactory::get_or_default::<Bean>(name)) as usize }) }).collect();
+                let hs: Vec<_> = (0..threads).map(|_| { let b = barrier.clone(); std::thread::spawn(move || { b.wait(); if mutable { std::ptr::from_ref(unsafe { BeanFactory::get_mut_or_default::<Bean>(name) }) as usize } else { std::ptr::from_ref(BeanFactory::get_or_default::<Bean>(name)) as usize } }) }).collect();
                 let got: Vec<usize> = hs.into_iter().map(|h| h.join().unwrap()).collect();
                 let later = std::ptr::from_ref(BeanFactory::get_or_default::<Bean>(name)) as usize;
                 if got.iter().any(|g| *g != later) { diverging += 1; }
